@@ -160,6 +160,13 @@ def _raises(f, cmp_inst, match_truth, errcell):
         for (gd, truth) in rules.conditions_at(f, s):
             if _same_test(f, gd["cond"], cmp_inst, truth, match_truth):
                 return True
+        # through a verdict variable: `if (a == b || c == d) clash = other;  ...  if (clash != NULL) error = true;`
+        for (gd, truth) in rules.conditions_at(f, s) + rules.control_conditions(f, s):
+            fs = rules.flag_assignment(f, gd["cond"], truth)
+            if fs is not None:
+                for (g2, t2) in rules.conditions_at(f, fs) + rules.control_conditions(f, fs):
+                    if _same_test(f, g2["cond"], cmp_inst, t2, match_truth):
+                        return True
     return False
 
 
